@@ -255,7 +255,7 @@ where
                 return Ok(());
             }
             Self::Unknown => {
-                panic!("encryption panicked");
+                return Err(std::io::Error::other("encryptor is in error state"));
             }
         };
 
@@ -316,7 +316,7 @@ where
             }
             Self::Done => {}
             Self::Unknown => {
-                panic!("encryption panicked");
+                return Err(std::io::Error::other("encryptor is in error state"));
             }
         }
         Ok(())
